@@ -35,6 +35,15 @@ CLAIMED = {
  "C20": dict(technique="explicit TLA+ state machine (Call / Run / Return with a cancelAt prophecy, spec/MC_C20.tla over PathSem with poll counting and exists-mode early exit) model-checked by TLC for every case x every poll; real executions cancelled at every poll judged by a TLC trace specification (spec/Trace_Cancel.tla), which also compares the poll counts the specification predicts with the real ones",
   text="MC_C20: for a pool of 36 paths covering every node kind and every consumer of an operand's status x documents x modes x {collecting call, lax Exists}, TLC explores cancelAt = k for every k from 1 to the number of polls of the uncancelled run (+1) and checks: the k-th poll ends the execution with the context error, no items, for every entry point, silent or not; no poll happens after it; an execution that ends before its k-th poll is unchanged. The runner measures, with a counting context.Context, the polls of each entry point under each option set, repeats the call with the context done from the k-th Done() on for EVERY k, with context.Canceled and DeadlineExceeded, verbose and silent, five entry points (137k calls quick on the pool + 146k on random paths), and Trace_Cancel checks on every call that observed the flip: error wraps ErrExecution and the context's error, no items, no boolean, no NULL, at most size-of-path further polls. Poll counts predicted by PathSem equal the real ones on the whole pool (reported as spec_drift otherwise).",
   note="Trusted: TLC, the counting context of the runner (a cancellation between two polls is indistinguishable from one immediately before the next poll), the wire format. 'After a bounded number of further steps' is checked as 'at most as many further polls as the path has nodes'.", ref="DESIGN.md section 7 C20"),
+ "C12": dict(technique="explicit TLA+ specification of the item order (CompareItems over exact BigNum values, byte strings) model-checked by TLC for the order laws over all pairs and triples of a value corpus; the complete real comparison matrix judged by a TLC trace specification (spec/Trace_Matrix.tla)",
+  text="MC_C12: over a corpus of null, booleans, 14 numbers (incl. 2^31, 2^53, 2^53+1, 2^53+2, 2^63-1, -2^63, 2^63, 10^19, halves) in every Go representation they have (int64 literal, float64, json.Number), 8 strings (empty, case variants, prefixes, e-acute, U+FFFD, U+1F600) and [], {}, [1], TLC checks on the specification's comparison: trichotomy on comparable pairs, a < b iff b > a, <= and >= as unions, transitivity over all 125k triples, null equals only null, cross-type / array / object pairs unknown. The runner executes every ordered pair x six operators x {lax, strict} as predicate checks (values enter as variables or path literals) and hands the COMPLETE real matrix to Trace_Matrix, which checks the same laws on the real answers and agreement of every cell with the specification's exact-value order; starts with is checked on every pair (true exactly for string prefixes).",
+  note="Trusted: TLC, BigNum.tla (exact dyadic arithmetic, tested against Python fractions), strconv for json.Number -> float64. like_regex is judged only for literal patterns and the q flag so far (Regex.tla fragment); datetime comparison is part of C17. In lax mode arrays are left out of the matrix (operands are unwrapped there); the existential / strict sequence rule is covered by the exec-family universes (MC_Mix, MC_Types).", ref="DESIGN.md section 7 C12"),
+ "C13": dict(technique=TECH + "; symmetric-operator matrices judged by spec/Trace_Matrix.tla",
+  text="MC_C13: over a boundary corpus of 25 numbers (0, +-1, +-2, 3, 7, 10, int32/int64 limits and neighbours, 2^53 neighbours, 1/2, 3/2, -5/2, 2^63, -2^63-1, 1e308, 5e-324) in every Go representation, TLC checks on the specification's numeric tower (exact BigNum arithmetic with IEEE round-to-nearest-even): results are errors or finite numbers, integer operands whose exact result fits int64 give exactly that integer and otherwise the correctly rounded double (never a wrapped integer), division / modulo by zero are suppressible errors, + and * commute, -(-x) = x. The runner executes every ordered pair x {+ - * / %}, unary + / - / -(-x) / .abs() on each value, and operand-count / operand-type / sequence cases (21k cases); Trace_Exec accepts a result only if it equals the exact result the specification computes (bit-exact doubles), and Trace_Matrix checks x + y = y + x and x * y = y * x on the real results.",
+  note=EXEC_NOTE + " Integer quotients may be truncated or exact. IEEE results are derived in the specification itself (BigNum.tla), not taken from Go.", ref="DESIGN.md section 7 C13"),
+ "C16": dict(technique=TECH + "; string round-trip and keyvalue laws judged by spec/Trace_Group.tla",
+  text="MC_C16: over a boundary grid of 32 numbers in every Go representation TLC checks on the specification's methods (Methods.tla): .integer() in int32, .bigint() in int64, halves round away from zero, .double() / .number() finite, a number and its spelling convert to the same value, .decimal(p, s) within precision and scale or an error, invalid precision / scale a non-suppressible error. The runner executes 11 methods x {lax, strict} on the grid (int64 literal, float64, json.Number), on the decimal spelling of every number as a string, on 55 irregular strings (NaN / inf spellings, padding, exponents, boolean spellings), on null / booleans / containers / out-of-range json.Number, and .decimal(p, s) for 9 precisions x 10 (thorough 12) scales (15.6k cases); Trace_Exec accepts only the value the specification computes exactly (correct rounding included). Trace_Group checks on real runs that x.string().m() = x.m() for the matching method and, on random objects executed twice on one document instance, that .keyvalue() yields one triple per member in key order with ids equal within an object, distinct across objects and stable.",
+  note=EXEC_NOTE + " The shortest-round-trip spelling .string() prints for doubles with more than 15 significant digits and strconv's acceptance of hex floats / digit separators are not decided (counted as not judged).", ref="DESIGN.md section 7 C16"),
  "C14": dict(technique=TECH,
   text="MC_C14: TLC enumerates all arrays of length 0..3 (quick) / 0..4 (thorough) over {null, 1, \"x\", [2], {\"a\":1}}, arrays of negative / fractional / out-of-int32 numbers and non-arrays x subscript lists built from abstract bounds (integers and halves, last, last+-k, every ordered pair as a range, lists, non-numeric / multi-valued / missing / out-of-int32 bounds, bounds read from the document, nested subscripts) x {lax, strict} and checks PathSem against a positional oracle computed from the abstract bounds; the universe, with float64 and json.Number spellings of every document, is replayed on the real code and judged by Trace_Exec.",
   note=EXEC_NOTE, ref="DESIGN.md section 7 C14"),
